@@ -57,9 +57,14 @@ def analyse(fi):
     findings = []
     checked = []
     defaults = fi.defaults()
-    for p, d in defaults.items():
-        if not (isinstance(d, ast.Constant) and d.value is None):
-            continue
+    cands = [p for p, d in defaults.items() if isinstance(d, ast.Constant) and d.value is None]
+    # a parameter without default that the function itself tests against None is believed to be possibly None as well
+    # (a helper that receives its caller's None-default parameter)
+    for p in fi.all_params():
+        if p not in cands and p not in ('self', 'cls') and any(
+                isinstance(n, ast.If) and _is_none_test(n.test, p) is not None for n in ast.walk(fi.node)):
+            cands.append(p)
+    for p in cands:
         state = {'maybe': True, 'armed': None}
 
         def visit(stmts, maybe):
